@@ -1230,6 +1230,16 @@ pub fn pick_range(rng: &mut Rng, l: &Ledger, whirlpool: &Pubkey, pool: &decode::
     (lo, hi)
 }
 
+/// a liquidity amount: log-uniform, and now and then a value whose low or high 64-bit word is exactly zero / all ones
+/// (exactly 2^64, a multiple of 2^64, 2^64 +- 1, 2^32)
+pub fn liq_amount(rng: &mut Rng, bits: u32) -> u128 {
+    let l = rng.log_u128(bits);
+    if bits >= 40 && rng.chance(1, 16) {
+        return *rng.pick(&[1u128 << 64, 3u128 << 64, (1u128 << 64) - 1, (1u128 << 64) + 1, 1u128 << 32, 1u128 << 65]);
+    }
+    l
+}
+
 fn tx1(ix: Ix) -> Tx {
     Tx { ixs: vec![ix] }
 }
@@ -1358,7 +1368,7 @@ fn plan_lp(w: &World, knobs: &Knobs, actor: &mut Actor, l: &Ledger) -> Vec<(Tx, 
                 ..Default::default()
             };
             let la = liq_accounts(actor, &pi.keys, &pk, &fake);
-            let liq = rng.log_u128(knobs.liq_bits);
+            let liq = liq_amount(rng, knobs.liq_bits);
             ixs.push((increase_ix(rng, &la, &pool, lo, hi, liq), "increase_liquidity"));
             if rng.chance(1, 3) {
                 // all in one atomic transaction
@@ -1377,7 +1387,7 @@ fn plan_lp(w: &World, knobs: &Knobs, actor: &mut Actor, l: &Ledger) -> Vec<(Tx, 
             if let Some(pi) = pool_of(w, &p.whirlpool) {
                 if let Some(pool) = l.data(&pi.keys.whirlpool).and_then(decode::pool) {
                     let la = liq_accounts(actor, &pi.keys, pk, p);
-                    let liq = rng.log_u128(knobs.liq_bits);
+                    let liq = liq_amount(rng, knobs.liq_bits);
                     flow.push((tx1(increase_ix(rng, &la, &pool, p.lower, p.upper, liq)), "increase_liquidity".into()));
                 }
             }
@@ -1390,7 +1400,7 @@ fn plan_lp(w: &World, knobs: &Knobs, actor: &mut Actor, l: &Ledger) -> Vec<(Tx, 
                     let liq = match rng.below(4) {
                         0 => p.liquidity,
                         1 => p.liquidity / 2,
-                        2 => rng.log_u128(knobs.liq_bits),
+                        2 => liq_amount(rng, knobs.liq_bits),
                         _ => 1 + rng.next_u128() % p.liquidity.max(1),
                     };
                     flow.push((tx1(decrease_ix(rng, &la, &pool, p.lower, p.upper, liq)), "decrease_liquidity".into()));
@@ -1504,7 +1514,7 @@ fn plan_lp(w: &World, knobs: &Knobs, actor: &mut Actor, l: &Ledger) -> Vec<(Tx, 
                     };
                     let new_liq = match rng.below(3) {
                         0 => p.liquidity.max(1),
-                        _ => rng.log_u128(knobs.liq_bits),
+                        _ => liq_amount(rng, knobs.liq_bits),
                     };
                     flow.push((
                         tx1(ix::reposition_liquidity_v2(&r, lo, hi, new_liq, 0, 0, u64::MAX, u64::MAX)),
